@@ -65,18 +65,20 @@ def diff_snap(a, b, path=""):
 # ------------------------------------------------------------------------------------------ builders
 
 
-def mk_gp(dim, pts, vals, noise):
+def mk_gp(dim, pts, vals, noise, tik=None):
+  """tik: the fitted nugget of an auto-noise model (tikhonov_param), or None; it replaces the noise on the kernel diagonal only -
+  what the model REPORTS (points, values, noise, lies with the fixed lie noise) does not depend on it."""
   from libsigopt.compute.covariance import SquareExponential
   from libsigopt.compute.gaussian_process import GaussianProcess
   from libsigopt.compute.misc.data_containers import HistoricalData
   hd = HistoricalData(dim)
   hd.append_historical_data(numpy.array(pts, dtype=float).reshape(len(pts), dim), numpy.array(vals, dtype=float), numpy.array(noise, dtype=float))
-  return GaussianProcess(SquareExponential([1.0] + [0.5] * dim), hd)
+  return GaussianProcess(SquareExponential([1.0] + [0.5] * dim), hd, tikhonov_param=tik)
 
 
 def mk_sum(inp):
   from libsigopt.compute.gaussian_process_sum import GaussianProcessSum
-  gps = [mk_gp(inp["dim"], inp["pts"], c["vals"], c["noise"]) for c in inp["comps"]]
+  gps = [mk_gp(inp["dim"], inp["pts"], c["vals"], c["noise"], c.get("tik", inp.get("tik"))) for c in inp["comps"]]
   return GaussianProcessSum(gps, list(inp["weights"]))
 
 
@@ -208,10 +210,16 @@ def run_constant_liar(inp):
   from libsigopt.compute.domain import CategoricalDomain
   from libsigopt.compute.expected_improvement import ExpectedImprovement
   d = inp["dim"]
-  pred = mk_sum(inp) if "comps" in inp else mk_gp(d, inp["pts"], inp["vals"], inp["noise"])
+  pred = mk_sum(inp) if "comps" in inp else mk_gp(d, inp["pts"], inp["vals"], inp["noise"], inp.get("tik"))
   if inp.get("warm"):                                      # accessor reads before the call (fills the sum's caches)
     _ = pred.points_sampled_value, pred.points_sampled_noise_variance, pred.best_observed_value
   af = ExpectedImprovement(pred)
+  if inp.get("af_kind") == "multitask":     # the cost-scaled wrapper forwards lies to the acquisition function it wraps
+    from libsigopt.compute.multitask_acquisition_function import MultitaskAcquisitionFunction
+    af = MultitaskAcquisitionFunction(af)
+  elif inp.get("af_kind") == "aei":
+    from libsigopt.compute.expected_improvement import AugmentedExpectedImprovement
+    af = AugmentedExpectedImprovement(pred)
   dom = CategoricalDomain([{"var_type": "double", "elements": [-64.0, 64.0]} for _ in range(d)])
   seen, calls, shared = [], [0], [False]
   scripted = inp.get("picks")
